@@ -7,6 +7,10 @@
 (*             "crash", the same again later in the process' life, header lines consumed       *)
 (*     alone   every listed protocol class ALONE on a fresh connection: r[i] for C_Listed[i]   *)
 (*     orders  every list of C_Lists on a fresh connection: got[l]                              *)
+(*   and through the real CONNECTION HANDLER (GopherRequestHandler.handle, which reads the      *)
+(*   request line itself), the answering class taken from the server log:                      *)
+(*     served  the shipped list: got; for long lines (pad > 0) also every listed class alone:    *)
+(*             alone[i] for C_Listed[i] (<<>> otherwise)                                          *)
 (*   judged with the documented shapes of Wire (Shape/FirstMatch) - the transcription          *)
 (*   (Claims/Detect) is compared at design level only (drift).                                 *)
 (*                                                                                            *)
@@ -31,7 +35,7 @@ tvars == <<tid, l, verdict, px, mt, al, wc, svars>>
 
 T  == Traces[tid]
 Ev == T.events
-X  == [line |-> T.init.line, tls |-> T.init.tls, hdrs |-> T.init.hdrs]          \* conn traces only
+X  == [line |-> T.init.line, pad |-> T.init.pad, tls |-> T.init.tls, hdrs |-> T.init.hdrs]    \* conn traces only
 
 ListedSet == {C_Listed[i] : i \in 1..Len(C_Listed)}
 TInit == /\ tid \in 1..NTraces /\ l = 1 /\ verdict = "ok" /\ al = <<>> /\ wc = FALSE
@@ -76,6 +80,19 @@ OnOrders(e) ==
              verdict' = (IF bad = {} THEN "ok" ELSE OrderVerdict(C_Lists[FirstBad(bad)], e.got[FirstBad(bad)], m)))
     /\ UNCHANGED <<px, mt, al, wc, svars>>
 
+\* the same bytes through the real connection handler: the class that answers is the first one whose documented
+\* shape matches the FULL first line (whatever its length), and each class alone answers iff its shape matches
+ServedVerdict(e) ==
+    IF ~TotalAt(e.got) THEN "Total"
+    ELSE IF ~TlsStrictAt(X.tls, e.got) THEN "TlsStrict"
+    ELSE IF ~OrderedAt(C_Lists[1], mt, e.got) THEN "Ordered"
+    ELSE IF e.alone # <<>> /\ Len(e.alone) # Len(C_Listed) THEN "unmatched"
+    ELSE IF e.alone # <<>> /\ (\E i \in 1..Len(C_Listed) : ~ClaimsMatchShapeAt(C_Listed[i], mt, e.alone[i])) THEN "ClaimsMatchShape"
+    ELSE "ok"
+OnServed(e) ==
+    /\ verdict' = ServedVerdict(e)
+    /\ UNCHANGED <<px, mt, al, wc, svars>>
+
 (* ---- sniff events ---------------------------------------------------------------------- *)
 \* a recv the code made: whatever it was, nothing may have left the buffer (property); at design level it is
 \* the Peek action: one byte, MSG_PEEK, before anything else
@@ -106,14 +123,15 @@ Consume ==
        (IF T.init.kind = "conn" /\ e.ev = "detect" THEN OnDetect(e)
        ELSE IF T.init.kind = "conn" /\ e.ev = "alone" THEN OnAlone(e)
        ELSE IF T.init.kind = "conn" /\ e.ev = "orders" THEN OnOrders(e)
+       ELSE IF T.init.kind = "conn" /\ e.ev = "served" THEN OnServed(e)
        ELSE IF T.init.kind = "sniff" /\ e.ev = "recv" /\ spc # "done" THEN OnRecv(e)
        ELSE IF T.init.kind = "sniff" /\ e.ev = "wrapcall" /\ spc # "done" THEN OnWrapCall(e)
        ELSE IF T.init.kind = "sniff" /\ e.ev = "return" /\ spc # "done" THEN OnReturn(e)
        ELSE (verdict' = "unmatched" /\ UNCHANGED <<px, mt, al, wc, svars>>))
 
-\* a complete trace: conn = detect, alone, orders;  sniff = ends with return.  (Dropping an event is rejected.)
+\* a complete trace: conn = detect, alone, orders, served;  sniff = ends with return.  (Dropping an event is rejected.)
 Complete == IF T.init.kind = "conn"
-            THEN Len(Ev) = 3 /\ Ev[1].ev = "detect" /\ Ev[2].ev = "alone" /\ Ev[3].ev = "orders"
+            THEN Len(Ev) = 4 /\ Ev[1].ev = "detect" /\ Ev[2].ev = "alone" /\ Ev[3].ev = "orders" /\ Ev[4].ev = "served"
             ELSE Len(Ev) >= 1 /\ Ev[Len(Ev)].ev = "return"
 Reject == /\ l = 1 /\ verdict = "ok" /\ ~Complete
           /\ verdict' = "unmatched" /\ UNCHANGED <<tid, l, px, mt, al, wc, svars>>
